@@ -12,7 +12,7 @@ def rand_chain(rng, nmax=8, mult_max=3, names=None, meta=True, with_rand_json=No
     """Returns dict(mother, decays=[(name, bf, [daughter names...], info)], order as supplied).
     Acyclic by construction: particle i only has daughters with larger index (or leaves)."""
     n = rng.randint(1, nmax)
-    pool = list(names or REAL)
+    pool = list(dict.fromkeys(names or REAL))   # distinct names: a repeated name would make a cyclic (non-)chain
     rng.shuffle(pool)
     dec = pool[:n]                      # decaying particles, dec[0] is the mother
     leaves = pool[n:n + rng.randint(1, 5)] or ["x"]
